@@ -364,6 +364,17 @@ class CheckRun:
                 self.known_hit[v.sig] = self.known_hit.get(v.sig, 0) + 1
             else:
                 real.append(v)
+        # a broken proof obligation for which the search produced a concrete failing input is reported through that input
+        # (the replay names the obligation); it is reported on its own, with no-failing-input-found, only when the search was clean
+        concrete = [v for v in real if v.kind == "impl-violates-property"]
+        broken = [v for v in real if v.kind == "proof-broken"]
+        if concrete and broken:
+            for v in concrete:
+                v.extra = dict(v.extra or {}, broken_proof_obligations=[{"sig": b.sig, "what": b.what, "log": str((b.extra or {}).get("log", ""))[-1500:]} for b in broken])
+            for b in broken:
+                self.log(f"{b.kind}: {b.sig}: {b.what} (reported through the concrete failing input found by the search)")
+                self.notes.append(f"proof obligation broken: {b.sig}: {b.what}; failing input found: {concrete[0].sig}")
+            real = [v for v in real if v.kind != "proof-broken"]
         lines = []
         for v in real:
             p = self.write_replay(v)
